@@ -82,8 +82,14 @@ class Scenario:
 
             @control.add(supply=5.0)
             def high(target, interval):
-                log.append((trioclock.now(), "step", "rule1", None, None))
+                log.append((trioclock.now(), "step", "rule1", None, 7.0))
                 return 7.0
+
+            @control.add(supply=10.0)
+            def drained(target, interval):
+                # the last step of draining a pool: a result of exactly zero
+                log.append((trioclock.now(), "step", "rule2", None, 0.0))
+                return 0.0
 
             self.service = control(pool, interval=period)
         elif service == "DemandSwitch":
@@ -252,6 +258,16 @@ def judge(case, scenario, run):
             return "%s.run:%s" % (service, kind), (
                 "no %s at t=%s (acted at %s, run lasted %s)" % (
                     what, when, sorted(steps), duration))
+    if service == "Stepwise":
+        # a step whose rule returns a number sets the demand to it, at that instant
+        for entry in log:
+            if entry[1] == "step" and entry[4] is not None and entry[0] < duration:
+                written = [e[4] for e in log if e[1] == "set" and e[3] == "demand"
+                           and e[0] == entry[0]]
+                if entry[4] not in written:
+                    return "Stepwise.run:step-without-effect", (
+                        "the rule called at t=%s returned %r, demand writes at that instant: %r"
+                        % (entry[0], entry[4], written))
     if service == "FactoryPool":
         # what an adjustment is for: once a boundary has passed after the last environment
         # action, the children still in demand cover the request
